@@ -708,3 +708,530 @@ Proof.
     rewrite <- Hn1. apply IH.
   - apply IH.
 Qed.
+
+(* ====================================================================== *)
+(* e. seeds                                                                *)
+(* ====================================================================== *)
+
+Theorem setup_seed_given_length : forall (args : str) (nruns : nat) (l : list str),
+  setup_seed_given args nruns = Ok l -> length l = nruns.
+Proof.
+  intros args nruns l H. unfold setup_seed_given in H.
+  destruct (int_opt ch_r args); [|discriminate]. cbn [bind] in H. injection H as <-.
+  now rewrite map_length, seq_length.
+Qed.
+
+Theorem setup_seed_given_no_r : forall (args : str) (nruns : nat),
+  last_opt ch_r args = None -> setup_seed_given args nruns = Raise ValueError.
+Proof. intros args nruns H. unfold setup_seed_given, int_opt. now rewrite H. Qed.
+
+(* --- decimal rendering --- *)
+
+Lemma num_of_snoc : forall (ds : str) (c : char),
+  num_of (ds ++ [c]) = (num_of ds * 10 + Z.of_N (c - 48))%Z.
+Proof. intros ds c. unfold num_of. now rewrite fold_left_app. Qed.
+
+Lemma digit_char : forall z : Z,
+  let c := (48 + Z.to_N (z mod 10))%N in
+  is_digit c = true /\ Z.of_N (c - 48) = (z mod 10)%Z.
+Proof.
+  intros z c. pose proof (Z.mod_pos_bound z 10 ltac:(lia)) as Hb.
+  subst c. set (m := (z mod 10)%Z) in *. split.
+  - unfold is_digit. apply andb_true_iff. split; apply N.leb_le; lia.
+  - rewrite N.add_comm, N.add_sub. apply Z2N.id. lia.
+Qed.
+
+Lemma digits_fuel_spec : forall (f : nat) (z : Z) (acc : str),
+  (0 <= z < 2 ^ Z.of_nat f)%Z -> f <> 0 ->
+  exists ds : str,
+    digits_fuel f z acc = ds ++ acc /\ ds <> [] /\ forallb is_digit ds = true /\ num_of ds = z.
+Proof.
+  induction f as [|f IH]; intros z acc Hz Hf; [congruence|].
+  cbn [digits_fuel]. destruct (digit_char z) as [Hd Hv].
+  set (c := (48 + Z.to_N (z mod 10))%N) in *.
+  destruct (Z.eqb_spec (z / 10) 0) as [H0|H0].
+  - exists [c]. split; [reflexivity|]. split; [discriminate|]. split.
+    + cbn [forallb]. now rewrite Hd.
+    + unfold num_of. cbn [fold_left]. rewrite Hv.
+      pose proof (Z.div_mod z 10 ltac:(lia)). lia.
+  - rewrite Nat2Z.inj_succ, Z.pow_succ_r in Hz by lia.
+    assert (Hq : (0 <= z / 10 < 2 ^ Z.of_nat f)%Z).
+    { split; [apply Z.div_pos; lia|]. apply Z.div_lt_upper_bound; lia. }
+    assert (Hf' : f <> 0).
+    { intros ->. cbn in Hq. lia. }
+    destruct (IH (z / 10)%Z (c :: acc) Hq Hf') as (ds & Hds & Hne & Hall & Hnum).
+    exists (ds ++ [c]). rewrite <- app_assoc. split; [exact Hds|]. split.
+    + destruct ds; discriminate.
+    + split.
+      * rewrite forallb_app, Hall. cbn [forallb]. now rewrite Hd.
+      * rewrite num_of_snoc, Hnum, Hv. pose proof (Z.div_mod z 10 ltac:(lia)). lia.
+Qed.
+
+Theorem str_of_Z_spec : forall z : Z, (0 <= z)%Z ->
+  str_of_Z z <> [] /\ forallb is_digit (str_of_Z z) = true /\ num_of (str_of_Z z) = z.
+Proof.
+  intros z Hz. unfold str_of_Z.
+  pose proof (Z.log2_nonneg (Z.max 1 z)) as Hl.
+  pose proof (Z.log2_spec (Z.max 1 z) ltac:(lia)) as Hs.
+  destruct (digits_fuel_spec (S (Z.to_nat (Z.log2 (Z.max 1 z)))) z []) as (ds & Hds & Hne & Hall & Hnum).
+  - rewrite Nat2Z.inj_succ, Z2Nat.id by lia. lia.
+  - discriminate.
+  - rewrite app_nil_r in Hds. rewrite Hds. auto.
+Qed.
+
+(* --- the regular expression --- *)
+
+Lemma opt_at_eq : forall (flag : char) (s : str),
+  opt_at flag s =
+  match s with
+  | c :: f :: r =>
+    if ((c =? 45) && (f =? flag))%N
+    then match take_digits (skip_spaces r) with [] => None | ds => Some ds end
+    else None
+  | _ => None
+  end.
+Proof.
+  intros flag s. destruct s as [|c [|f r]]; [reflexivity| |].
+  - destruct c as [|p]; [reflexivity|].
+    do 6 (try (destruct p as [p|p|]; try reflexivity)).
+  - destruct c as [|p]; [reflexivity|].
+    do 6 (try (destruct p as [p|p|]; try reflexivity)).
+Qed.
+
+Lemma opt_at_nodash : forall (flag c : char) (s : str),
+  c <> 45%N -> opt_at flag (c :: s) = None.
+Proof.
+  intros flag c s H. rewrite opt_at_eq. destruct s as [|f r]; [reflexivity|].
+  destruct (N.eqb_spec c 45); [contradiction|reflexivity].
+Qed.
+
+Lemma last_opt_cons : forall (flag c : char) (s : str),
+  last_opt flag (c :: s) =
+  match last_opt flag s with Some d => Some d | None => opt_at flag (c :: s) end.
+Proof. reflexivity. Qed.
+
+Lemma last_opt_app_nodash : forall (flag : char) (a b : str),
+  Forall (fun c : char => c <> 45%N) a -> last_opt flag (a ++ b) = last_opt flag b.
+Proof.
+  intros flag a b H. induction H as [|c a Hc _ IH]; [reflexivity|].
+  cbn [app]. rewrite last_opt_cons, IH, opt_at_nodash by exact Hc.
+  destruct (last_opt flag b); reflexivity.
+Qed.
+
+Lemma has_flag_cons : forall (flag c : char) (s : str),
+  has_flag flag (c :: s) = false ->
+  has_flag flag s = false /\
+  (c <> 45%N \/ match s with f :: _ => f <> flag | [] => True end).
+Proof.
+  intros flag c s H. unfold has_flag in *. cbn [infix_b] in H.
+  apply orb_false_elim in H. destruct H as [Hp Hi]. split; [exact Hi|].
+  destruct (N.eqb_spec c 45) as [->|Hc]; [|left; exact Hc]. right.
+  destruct s as [|f r]; [exact I|]. cbn [prefix_b] in Hp.
+  rewrite N.eqb_refl, andb_true_r in Hp. cbn [andb] in Hp.
+  destruct (N.eqb_spec flag f); [discriminate|congruence].
+Qed.
+
+Lemma last_opt_noflag : forall (flag : char) (s : str),
+  has_flag flag s = false -> last_opt flag s = None.
+Proof.
+  intros flag s. induction s as [|c s IH]; intros H; [reflexivity|].
+  destruct (has_flag_cons flag c s H) as [Hs Hc].
+  rewrite last_opt_cons, (IH Hs), opt_at_eq.
+  destruct s as [|f r]; [reflexivity|].
+  destruct Hc as [Hc|Hc].
+  - destruct (N.eqb_spec c 45); [contradiction|reflexivity].
+  - destruct (N.eqb_spec f flag); [contradiction|]. now rewrite andb_false_r.
+Qed.
+
+Lemma last_opt_prefix : forall (flag : char) (a b : str) (d : str),
+  last_opt flag b = Some d -> last_opt flag (a ++ b) = Some d.
+Proof.
+  intros flag a b d H. induction a as [|c a IH]; [exact H|].
+  cbn [app]. now rewrite last_opt_cons, IH.
+Qed.
+
+Definition no_digit_head (s : str) : Prop :=
+  match s with [] => True | c :: _ => is_digit c = false end.
+
+Lemma take_digits_app : forall ds post : str,
+  forallb is_digit ds = true -> no_digit_head post -> take_digits (ds ++ post) = ds.
+Proof.
+  induction ds as [|c ds IH]; intros post Hall Hp.
+  - destruct post as [|c r]; [reflexivity|]. cbn [app take_digits]. cbn in Hp. now rewrite Hp.
+  - cbn [forallb] in Hall. apply andb_true_iff in Hall. destruct Hall as [Hc Hall].
+    cbn [app take_digits]. rewrite Hc, IH by assumption. reflexivity.
+Qed.
+
+Lemma skip_spaces_app : forall spaces s : str,
+  Forall (fun c : char => c = sp) spaces ->
+  match s with [] => True | c :: _ => c <> sp end ->
+  skip_spaces (spaces ++ s) = s.
+Proof.
+  intros spaces s H Hs. induction H as [|c spaces -> _ IH].
+  - destruct s as [|c r]; [reflexivity|]. cbn [app skip_spaces].
+    destruct (N.eqb_spec c sp); [contradiction|reflexivity].
+  - cbn [app skip_spaces]. rewrite N.eqb_refl. exact IH.
+Qed.
+
+Lemma digit_not_sp : forall c : char, is_digit c = true -> c <> sp.
+Proof.
+  intros c H ->. discriminate.
+Qed.
+
+Lemma digit_not_dash : forall c : char, is_digit c = true -> c <> 45%N.
+Proof.
+  intros c H ->. discriminate.
+Qed.
+
+Lemma digits_head_not_sp : forall ds post : str,
+  ds <> [] -> forallb is_digit ds = true ->
+  match ds ++ post with [] => True | c :: _ => c <> sp end.
+Proof.
+  intros [|c ds] post Hne Hall; [congruence|]. cbn [app]. cbn [forallb] in Hall.
+  apply andb_true_iff in Hall. apply digit_not_sp. tauto.
+Qed.
+
+Lemma opt_at_match : forall (flag : char) (spaces ds post : str),
+  Forall (fun c : char => c = sp) spaces ->
+  ds <> [] -> forallb is_digit ds = true -> no_digit_head post ->
+  opt_at flag (45%N :: flag :: spaces ++ ds ++ post) = Some ds.
+Proof.
+  intros flag spaces ds post Hsp Hne Hall Hp.
+  rewrite opt_at_eq, !N.eqb_refl. cbn [andb].
+  rewrite skip_spaces_app by (try exact Hsp; apply digits_head_not_sp; assumption).
+  rewrite take_digits_app by assumption. destruct ds; [congruence|reflexivity].
+Qed.
+
+Lemma nodash_mid : forall spaces ds : str,
+  Forall (fun c : char => c = sp) spaces -> forallb is_digit ds = true ->
+  Forall (fun c : char => c <> 45%N) (spaces ++ ds).
+Proof.
+  intros spaces ds Hsp Hall. apply Forall_app. split.
+  - eapply Forall_impl; [|exact Hsp]. intros c ->. discriminate.
+  - apply Forall_forall. intros c Hc. apply digit_not_dash.
+    rewrite forallb_forall in Hall. auto.
+Qed.
+
+(* the last "-X *digits" of a string with exactly one such option *)
+Lemma last_opt_single : forall (flag : char) (pre spaces ds post : str),
+  flag <> 45%N ->
+  Forall (fun c : char => c = sp) spaces ->
+  ds <> [] -> forallb is_digit ds = true -> no_digit_head post ->
+  has_flag flag post = false ->
+  last_opt flag (pre ++ 45%N :: flag :: spaces ++ ds ++ post) = Some ds.
+Proof.
+  intros flag pre spaces ds post Hflag Hsp Hne Hall Hp Hpost.
+  apply last_opt_prefix. rewrite last_opt_cons.
+  change (flag :: spaces ++ ds ++ post) with ((flag :: spaces) ++ ds ++ post).
+  rewrite app_assoc.
+  rewrite (last_opt_app_nodash flag ((flag :: spaces) ++ ds) post).
+  - rewrite (last_opt_noflag flag post Hpost). rewrite <- app_assoc.
+    change ((flag :: spaces) ++ ds ++ post) with (flag :: spaces ++ ds ++ post).
+    apply opt_at_match; assumption.
+  - change ((flag :: spaces) ++ ds) with (flag :: (spaces ++ ds)). constructor; [exact Hflag|].
+    apply nodash_mid; assumption.
+Qed.
+
+(* --- the substitution --- *)
+
+Lemma sub_seed_noflag : forall (s : str) (fuel : nat) (new : str),
+  has_flag ch_r s = false -> length s <= fuel -> sub_seed fuel s new = s.
+Proof.
+  induction s as [|c s IH]; intros fuel new H Hlen.
+  - destruct fuel; reflexivity.
+  - destruct fuel as [|f]; [cbn [length] in Hlen; lia|].
+    destruct (has_flag_cons ch_r c s H) as [Hs Hc].
+    assert (Ho : opt_at ch_r (c :: s) = None).
+    { rewrite opt_at_eq. destruct s as [|f0 r]; [reflexivity|]. destruct Hc as [Hc|Hc].
+      - destruct (N.eqb_spec c 45); [contradiction|reflexivity].
+      - destruct (N.eqb_spec f0 ch_r); [contradiction|]. now rewrite andb_false_r. }
+    cbn [sub_seed]. rewrite Ho. rewrite IH; [reflexivity|exact Hs|cbn [length] in Hlen; lia].
+Qed.
+
+Lemma sub_seed_pre : forall (pre : str) (fuel : nat) (rest new : str),
+  has_flag ch_r pre = false -> length pre <= fuel ->
+  sub_seed fuel (pre ++ 45%N :: rest) new = pre ++ sub_seed (fuel - length pre) (45%N :: rest) new.
+Proof.
+  induction pre as [|c pre IH]; intros fuel rest new H Hlen.
+  - cbn [app length]. now rewrite Nat.sub_0_r.
+  - destruct fuel as [|f]; [cbn [length] in Hlen; lia|].
+    destruct (has_flag_cons ch_r c pre H) as [Hs Hc].
+    assert (Ho : opt_at ch_r (c :: pre ++ 45%N :: rest) = None).
+    { rewrite opt_at_eq. destruct pre as [|f0 r]; cbn [app].
+      - change (45 =? ch_r)%N with false. now rewrite andb_false_r.
+      - destruct Hc as [Hc|Hc].
+        + destruct (N.eqb_spec c 45); [contradiction|reflexivity].
+        + destruct (N.eqb_spec f0 ch_r); [contradiction|]. now rewrite andb_false_r. }
+    cbn [app sub_seed length Nat.sub]. rewrite Ho.
+    rewrite IH; [reflexivity|exact Hs|cbn [length] in Hlen; lia].
+Qed.
+
+Lemma skipn_length_app : forall (A : Type) (a b : list A), skipn (length a) (a ++ b) = b.
+Proof. intros A a b. induction a as [|x a IH]; [reflexivity|exact IH]. Qed.
+
+Lemma sub_seed_match : forall (f : nat) (spaces ds post new : str),
+  Forall (fun c : char => c = sp) spaces ->
+  ds <> [] -> forallb is_digit ds = true -> no_digit_head post ->
+  sub_seed (S f) (45%N :: ch_r :: spaces ++ ds ++ post) new =
+  [45%N; ch_r; sp] ++ new ++ sub_seed f post new.
+Proof.
+  intros f spaces ds post new Hsp Hne Hall Hp.
+  cbn [sub_seed]. rewrite (opt_at_match ch_r spaces ds post Hsp Hne Hall Hp).
+  cbn [skipn].
+  rewrite skip_spaces_app by (try exact Hsp; apply digits_head_not_sp; assumption).
+  now rewrite skipn_length_app.
+Qed.
+
+Theorem sub_seed_single : forall (pre spaces ds post new : str),
+  has_flag ch_r pre = false ->
+  Forall (fun c : char => c = sp) spaces ->
+  ds <> [] -> forallb is_digit ds = true -> no_digit_head post ->
+  has_flag ch_r post = false ->
+  let args := pre ++ 45%N :: ch_r :: spaces ++ ds ++ post in
+  sub_seed (S (length args)) args new = pre ++ [45%N; ch_r; sp] ++ new ++ post.
+Proof.
+  intros pre spaces ds post new Hpre Hsp Hne Hall Hp Hpost args. subst args.
+  rewrite sub_seed_pre; [|exact Hpre|rewrite app_length; lia].
+  f_equal.
+  remember (S (length (pre ++ 45%N :: ch_r :: spaces ++ ds ++ post)) - length pre) as fuel eqn:Hf.
+  rewrite app_length in Hf. cbn [length] in Hf. rewrite !app_length in Hf.
+  destruct fuel as [|f]; [lia|].
+  rewrite sub_seed_match by assumption.
+  rewrite sub_seed_noflag; [reflexivity|exact Hpost|lia].
+Qed.
+
+(* For arguments carrying exactly one "-r *digits", run i gets the same
+   arguments with seed s + i, and the wrapper reads that seed back. *)
+Theorem setup_seed_given_spec : forall (pre spaces ds post : str) (nruns : nat),
+  has_flag ch_r pre = false ->
+  Forall (fun c : char => c = sp) spaces ->
+  ds <> [] -> forallb is_digit ds = true -> no_digit_head post ->
+  has_flag ch_r post = false ->
+  let args := pre ++ 45%N :: ch_r :: spaces ++ ds ++ post in
+  int_opt ch_r args = Ok (num_of ds) /\
+  setup_seed_given args nruns =
+  Ok (map (fun i : nat => pre ++ [45%N; ch_r; sp] ++ str_of_Z (num_of ds + Z.of_nat i) ++ post)
+          (seq 0 nruns)).
+Proof.
+  intros pre spaces ds post nruns Hpre Hsp Hne Hall Hp Hpost args.
+  assert (Hint : int_opt ch_r args = Ok (num_of ds)).
+  { unfold int_opt, args. rewrite last_opt_single; try assumption; [reflexivity|discriminate]. }
+  split; [exact Hint|]. unfold setup_seed_given. rewrite Hint. cbn [bind]. f_equal.
+  apply map_ext. intros i. apply sub_seed_single; assumption.
+Qed.
+
+Theorem seeded_args_int_opt : forall (pre post : str) (z : Z),
+  (0 <= z)%Z -> no_digit_head post -> has_flag ch_r post = false ->
+  int_opt ch_r (pre ++ [45%N; ch_r; sp] ++ str_of_Z z ++ post) = Ok z.
+Proof.
+  intros pre post z Hz Hp Hpost. destruct (str_of_Z_spec z Hz) as (Hne & Hall & Hnum).
+  unfold int_opt.
+  change (pre ++ [45%N; ch_r; sp] ++ str_of_Z z ++ post)
+    with (pre ++ 45%N :: ch_r :: [sp] ++ str_of_Z z ++ post).
+  rewrite last_opt_single; try assumption.
+  - now rewrite Hnum.
+  - discriminate.
+  - constructor; [reflexivity|constructor].
+Qed.
+
+(* the i-th run is started with seed s + i; the argument strings are pairwise distinct *)
+Theorem setup_seed_given_seeds : forall (pre spaces ds post : str) (nruns : nat) (l : list str),
+  has_flag ch_r pre = false ->
+  Forall (fun c : char => c = sp) spaces ->
+  ds <> [] -> forallb is_digit ds = true -> no_digit_head post ->
+  has_flag ch_r post = false ->
+  setup_seed_given (pre ++ 45%N :: ch_r :: spaces ++ ds ++ post) nruns = Ok l ->
+  length l = nruns /\
+  (forall i : nat, i < nruns -> int_opt ch_r (nth i l []) = Ok (num_of ds + Z.of_nat i)%Z) /\
+  NoDup l.
+Proof.
+  intros pre spaces ds post nruns l Hpre Hsp Hne Hall Hp Hpost H.
+  destruct (setup_seed_given_spec pre spaces ds post nruns Hpre Hsp Hne Hall Hp Hpost) as [_ Hspec].
+  rewrite Hspec in H. injection H as <-.
+  set (g := fun i : nat => pre ++ [45%N; ch_r; sp] ++ str_of_Z (num_of ds + Z.of_nat i) ++ post).
+  assert (Hg : forall i : nat, int_opt ch_r (g i) = Ok (num_of ds + Z.of_nat i)%Z).
+  { intros i. apply seeded_args_int_opt; try assumption. pose proof (num_of_nonneg ds). lia. }
+  split; [now rewrite map_length, seq_length|]. split.
+  - intros i Hi.
+    rewrite (nth_indep _ [] (g 0)) by (rewrite map_length, seq_length; exact Hi).
+    rewrite (map_nth g), seq_nth by exact Hi. cbn [plus]. apply Hg.
+  - apply FinFun.Injective_map_NoDup; [|apply seq_NoDup].
+    intros i j Hij. change (g i = g j) in Hij.
+    pose proof (Hg i) as Hi. rewrite Hij, Hg in Hi. injection Hi. lia.
+Qed.
+
+(* ====================================================================== *)
+(* f. the segmentation does not depend on the order in which the runs are
+      postprocessed (they share one ParseCounter)                          *)
+(* ====================================================================== *)
+
+(* counters built by update: distinct keys, positive counts *)
+Definition counter_good (c : counter str) : Prop :=
+  NoDup (map fst c) /\ Forall (fun kv : str * Z => (0 < snd kv)%Z) c.
+
+Lemma cadd_keys : forall (c : counter str) (k k' : str) (d : Z),
+  In k' (map fst (cadd str_eqb c k d)) -> In k' (map fst c) \/ k' = k.
+Proof.
+  induction c as [|[k0 v] r IH]; intros k k' d H; cbn [cadd map fst] in *.
+  - destruct H as [<-|[]]. right; reflexivity.
+  - destruct (str_eqb k k0); cbn [map fst In] in *.
+    + left. exact H.
+    + destruct H as [H|H]; [left; left; exact H|].
+      destruct (IH k k' d H) as [H'|H']; [left; right; exact H'|right; exact H'].
+Qed.
+
+Lemma cadd_good : forall (c : counter str) (k : str),
+  counter_good c -> counter_good (cadd str_eqb c k 1).
+Proof.
+  unfold counter_good. induction c as [|[k0 v] r IH]; intros k [Hnd Hpos]; cbn [cadd].
+  - split; [cbn; constructor; [intros []|constructor]|]. constructor; [cbn; lia|constructor].
+  - cbn [map fst] in Hnd. inversion Hnd as [|? ? Hnotin Hnd']; subst.
+    inversion Hpos as [|? ? Hv Hpos']; subst. cbn [snd] in Hv.
+    destruct (str_eqb_spec k k0) as [->|Hne].
+    + split; [cbn [map fst]; constructor; assumption|]. constructor; [cbn [snd]; lia|exact Hpos'].
+    + destruct (IH k (conj Hnd' Hpos')) as [Hnd2 Hpos2]. split.
+      * cbn [map fst]. constructor; [|exact Hnd2]. intros Hin.
+        destruct (cadd_keys r k k0 1 Hin) as [H|H]; [contradiction|congruence].
+      * constructor; [exact Hv|exact Hpos2].
+Qed.
+
+Lemma bump_all_good : forall (cs : list (counter str)) (parse : list str),
+  Forall counter_good cs -> Forall counter_good (bump_all cs parse).
+Proof.
+  induction cs as [|c cr IH]; intros [|u pr] H; cbn [bump_all]; try exact H.
+  inversion H; subst. constructor; [apply cadd_good; assumption|apply IH; assumption].
+Qed.
+
+Lemma pc_update_all_good : forall (parses : list (list str)) (pc pc' : pcounter),
+  pc_update_all pc parses = Ok pc' ->
+  Forall counter_good (pc_counters pc) -> Forall counter_good (pc_counters pc').
+Proof.
+  induction parses as [|p r IH]; intros pc pc' H Hg; cbn [pc_update_all] in H.
+  - injection H as <-. exact Hg.
+  - destruct (pc_update pc p) as [pc1|] eqn:H1; [|discriminate]. cbn [bind] in H.
+    apply (IH pc1 pc' H). unfold pc_update in H1.
+    destruct (negb (length p =? pc_nutts pc)); [discriminate|]. injection H1 as <-.
+    cbn [pc_counters]. apply bump_all_good. exact Hg.
+Qed.
+
+Lemma pc_init_good : forall nutts : nat, Forall counter_good (pc_counters (pc_init nutts)).
+Proof.
+  intros n. cbn [pc_init pc_counters]. apply Forall_forall. intros c Hc.
+  apply repeat_spec in Hc. subst c. split; constructor.
+Qed.
+
+Lemma cget_nonzero_in : forall (c : counter str) (k : str),
+  cget str_eqb c k <> 0%Z -> In (k, cget str_eqb c k) c.
+Proof.
+  induction c as [|[k0 v] r IH]; intros k H; cbn [cget] in *; [congruence|].
+  destruct (str_eqb_spec k k0) as [Heq|Hne]; [left; congruence|right; apply IH; exact H].
+Qed.
+
+(* for such counters, the choice only depends on the counts *)
+Lemma most_common1_view : forall c1 c2 : counter str,
+  counter_good c1 -> counter_good c2 ->
+  (forall k : str, cget str_eqb c1 k = cget str_eqb c2 k) ->
+  most_common1 c1 = most_common1 c2.
+Proof.
+  assert (Hsub : forall c1 c2 : counter str,
+             counter_good c1 ->
+             (forall k : str, cget str_eqb c1 k = cget str_eqb c2 k) ->
+             forall e : str * Z, In e c1 -> In e c2).
+  { intros c1 c2 [Hnd Hpos] Hv [k v] Hin.
+    pose proof (cget_in_nodup c1 k v Hnd Hin) as Hc.
+    rewrite Forall_forall in Hpos. pose proof (Hpos _ Hin) as Hp. cbn [snd] in Hp.
+    rewrite <- Hc, Hv. apply cget_nonzero_in. rewrite <- Hv, Hc. lia. }
+  intros c1 c2 Hg1 Hg2 Hv.
+  assert (Heq : forall e : str * Z, In e c1 <-> In e c2).
+  { intros e. split; [apply Hsub; assumption|apply Hsub; [assumption|intros k; symmetry; apply Hv]]. }
+  destruct c1 as [|kv1 r1], c2 as [|kv2 r2].
+  - reflexivity.
+  - exfalso. apply (proj2 (Heq kv2)). left; reflexivity.
+  - exfalso. apply (proj1 (Heq kv1)). left; reflexivity.
+  - cbn [most_common1]. f_equal. f_equal.
+    eapply is_best_unique; [exact Heq|apply best_of_spec|apply best_of_spec].
+Qed.
+
+Lemma pc_update_all_app : forall (a b : list (list str)) (pc : pcounter),
+  pc_update_all pc (a ++ b) = (do pc' <- pc_update_all pc a; pc_update_all pc' b).
+Proof.
+  induction a as [|p r IH]; intros b pc; [reflexivity|].
+  cbn [app pc_update_all]. destruct (pc_update pc p) as [pc1|]; [|reflexivity].
+  cbn [bind]. apply IH.
+Qed.
+
+Definition complete_parses (nutts : nat) (ig : Z) (lines : list str) : list (list str) :=
+  filter (fun p : list str => Nat.eqb (length p) nutts) (yield_parses lines ig).
+
+Lemma postprocess_nutts : forall (pc : pcounter) (lines : list str) (ig : Z),
+  pc_nutts (postprocess pc lines ig) = pc_nutts pc.
+Proof.
+  intros pc lines ig. eapply pc_update_all_nutts. apply postprocess_update_all.
+Qed.
+
+(* all the runs together: one update per complete parse, in run order *)
+Lemma fold_postprocess : forall (runs : list (list str)) (ig : Z) (pc : pcounter),
+  pc_update_all pc (flat_map (complete_parses (pc_nutts pc) ig) runs) =
+  Ok (fold_left (fun (pc : pcounter) (lines : list str) => postprocess pc lines ig) runs pc).
+Proof.
+  induction runs as [|lines r IH]; intros ig pc; [reflexivity|].
+  cbn [flat_map fold_left]. rewrite pc_update_all_app. unfold complete_parses at 1.
+  rewrite postprocess_update_all. cbn [bind].
+  rewrite <- (postprocess_nutts pc lines ig). apply IH.
+Qed.
+
+Lemma mapM_ext2 : forall cs1 cs2 : list (counter str),
+  Forall2 (fun c1 c2 : counter str => most_common1 c1 = most_common1 c2) cs1 cs2 ->
+  mapM most_common1 cs1 = mapM most_common1 cs2.
+Proof.
+  intros cs1 cs2 H. induction H as [|c1 c2 r1 r2 Hc _ IH]; [reflexivity|].
+  cbn [mapM]. now rewrite Hc, IH.
+Qed.
+
+Lemma Forall2_nth_intro : forall (A : Type) (R : A -> A -> Prop) (d : A) (l1 l2 : list A),
+  length l1 = length l2 ->
+  (forall i : nat, i < length l1 -> R (nth i l1 d) (nth i l2 d)) ->
+  Forall2 R l1 l2.
+Proof.
+  intros A R d. induction l1 as [|x r IH]; intros [|y s] Hlen H; cbn [length] in *; try discriminate.
+  - constructor.
+  - constructor.
+    + apply (H 0). lia.
+    + apply IH; [lia|]. intros i Hi. apply (H (S i)). lia.
+Qed.
+
+Theorem segment_run_order_invariant :
+  forall (nutts : nat) (args : str) (ignore : Z) (runs1 runs2 : list (list str)),
+  Permutation runs1 runs2 ->
+  segment_from_outputs nutts args ignore runs1 = segment_from_outputs nutts args ignore runs2.
+Proof.
+  intros n args ignore runs1 runs2 Hp. unfold segment_from_outputs.
+  destruct (effective_ignore args ignore) as [ig|e]; [|reflexivity]. cbn [bind].
+  set (pc1 := fold_left (fun (pc : pcounter) (lines : list str) => postprocess pc lines ig) runs1 (pc_init n)).
+  set (pc2 := fold_left (fun (pc : pcounter) (lines : list str) => postprocess pc lines ig) runs2 (pc_init n)).
+  pose proof (fold_postprocess runs1 ig (pc_init n)) as H1. fold pc1 in H1.
+  pose proof (fold_postprocess runs2 ig (pc_init n)) as H2. fold pc2 in H2.
+  cbn [pc_init pc_nutts] in H1, H2. fold (pc_init n) in H1, H2.
+  set (ps1 := flat_map (complete_parses n ig) runs1) in *.
+  set (ps2 := flat_map (complete_parses n ig) runs2) in *.
+  assert (Hps : Permutation ps1 ps2) by (apply Permutation_flat_map; exact Hp).
+  assert (Hall1 : Forall (fun p : list str => length p = n) ps1).
+  { apply Forall_forall. intros p Hin. apply in_flat_map in Hin. destruct Hin as (lines & _ & Hin).
+    unfold complete_parses in Hin. apply filter_In in Hin. destruct Hin as [_ Hl].
+    now apply Nat.eqb_eq in Hl. }
+  destruct (count_perm_invariant n ps1 ps2 pc1 pc2 Hps Hall1 H1 H2) as [Hnp Hview].
+  assert (Hall2 : Forall (fun p : list str => length p = n) ps2)
+    by (eapply Permutation_Forall; eauto).
+  destruct (pc_update_all_counts ps1 (pc_init n) (pc_init_wf n) Hall1) as (q1 & Hq1 & Hwf1 & Hn1 & _).
+  destruct (pc_update_all_counts ps2 (pc_init n) (pc_init_wf n) Hall2) as (q2 & Hq2 & Hwf2 & Hn2 & _).
+  rewrite H1 in Hq1. injection Hq1 as <-. rewrite H2 in Hq2. injection Hq2 as <-.
+  pose proof (pc_update_all_good ps1 _ _ H1 (pc_init_good n)) as Hg1.
+  pose proof (pc_update_all_good ps2 _ _ H2 (pc_init_good n)) as Hg2.
+  unfold pc_most_common. rewrite Hnp. destruct (pc_nparses pc2 =? 0)%Z; [reflexivity|].
+  apply mapM_ext2. unfold pc_wf in Hwf1, Hwf2.
+  apply (Forall2_nth_intro (counter str) _ (@nil (str * Z))); [rewrite Hwf1, Hwf2, Hn1, Hn2; reflexivity|].
+  intros i Hi. rewrite Forall_forall in Hg1, Hg2. apply most_common1_view.
+  - apply Hg1. apply nth_In. exact Hi.
+  - apply Hg2. apply nth_In. rewrite Hwf2, Hn2, <- Hn1, <- Hwf1. exact Hi.
+  - intros k. apply (Hview i k).
+Qed.
